@@ -1,3 +1,4 @@
+import CacheVerif.Proofs.ProtoClear
 import CacheVerif.Proofs.ProtoCompose
 import CacheVerif.Proofs.Wrappers
 import CacheVerif.Proofs.ProtoHW
@@ -207,6 +208,17 @@ theorem C03_C04_read_any_instant (hmin : 0 < p.minLen) (pre mid1 mid2 : List (Mo
     (∃ e ∈ events p s0 (mid1 ++ mid2), ∃ u f lie co, HelpAt e u k f lie co ∧ v = (specDc f lie co (absGet e.pre.g k)).1) :=
   Proofs.ProtoCompose.read_any_instant p hmin pre mid1 mid2 s0 s1 s' h0 h1 h2 t k hstart hpc
 
+/-- **every completed `Clear` takes effect inside its interval** (every schedule; the call may lose the CAS on the
+`resizing` flag to grows and shrinks any number of times - it waits and tries again, which is the repair of F4): between
+the state in which thread `u` enters `Clear` and the state in which that call is at its return point there is a state -
+the one right after `u`'s own publish step - in which the current table is empty.  So no entry whose store completed
+before the `Clear` began is still present when it returns, unless it was stored again after that instant. -/
+theorem C03_C04_clear_takes_effect (hmin : 0 < p.minLen) (u : Model.Proto.Tid) (pre mid : List (Model.Proto.Tid × Choice K V))
+    (s0 s1 : Model.Proto.St K V) (h0 : Model.Proto.run p (Model.Proto.init p) pre = some s0)
+    (h1 : Model.Proto.run p s0 mid = some s1) (hstart : (s0.l u).pc = .clTable) (hret : (s1.l u).pc = .ret) :
+    ∃ σ ∈ trace p s0 mid, ∀ k, absGet σ.g k = none :=
+  Proofs.ProtoClear.clear_takes_effect p hmin u pre mid s0 s1 h0 h1 hstart hret
+
 /-- the operations of M4a that the trace acceptor starts for the API calls of the real code are the calls of `doCompute`
 those methods make in the working tree (both files: `Proofs.Wrappers.twins`) -/
 theorem C03_C04_model_ops_are_methods [Inhabited V] (k : K) (x : V) (g : Option V → V × Bool) :
@@ -314,6 +326,15 @@ example : ∃ (s0 s' : Model.Proto.St Nat Nat),
     Model.Proto.run exP s0 (List.replicate 10 (0, {})) = some s' ∧
     (s0.l 0).pc = .dcLoadTable ∧ (s'.l 0).pc = .ret ∧ (s'.l 0).result = some (.val (some 5) false) ∧
     absGet s'.g 1 = some 5 := ⟨_, _, rfl, rfl, rfl, rfl, rfl, rfl⟩
+
+/-- non-vacuity of `C03_C04_clear_takes_effect`: after `Store(1, 5)` by thread 0, thread 1 runs `Clear` to its return
+point; the hypotheses hold and the content, non-empty when the call began, is empty when it returns -/
+example : ∃ (s0 s1 : Model.Proto.St Nat Nat),
+    Model.Proto.run exP (Model.Proto.init exP)
+      ((0, { op := some (.dc 1 (fun _ => (5, false)) false false) }) :: List.replicate 11 (0, ({} : Choice Nat Nat)) ++ [(1, { op := some .clear })]) = some s0 ∧
+    Model.Proto.run exP s0 (List.replicate 10 (1, ({} : Choice Nat Nat))) = some s1 ∧
+    (s0.l 1).pc = .clTable ∧ (s1.l 1).pc = .ret ∧ absGet s0.g 1 = some 5 ∧ absGet s1.g 1 = none :=
+  ⟨_, _, rfl, rfl, rfl, rfl, rfl, rfl⟩
 
 end proto
 
